@@ -309,10 +309,19 @@ def run(ctx):
     # ... and the two error conversions of process_event only wrap what they were given (an unreadable event need not carry a path)
     try:
         pe = ctx.anchor_fn("R15.6", "watchexec::sources::fs::process_event")
-        cls = {c.def_.rsplit("::", 1)[-1]: pathx.desc(thir.peel(thir.root(c))).replace("^", "") for c in facts.children(pe) if c.kind == "closure"}
-        wraps = sorted(v for v in cls.values() if v.startswith(("FsWatcher{", "EventChannelTrySend{")))
-        ctx.require(wraps == ["EventChannelTrySend{ctx: 'fs watcher', err: err}", "FsWatcher{kind: kind, err: Event{0: err}}"], "R15.6", "process-event-errors-wrap",
-                    "process_event turns a watcher error / a full queue into one RuntimeError by wrapping it, nothing else", pe.loc(pe.line), detail=str(wraps),
+        PURE = {"adt", "upvar", "var", "lit", "block", "let", "bind", "scope", "stmt", "expr", "field", "ref", "deref", "use", "wild"}
+        wraps = {}
+        for c in facts.children(pe):
+            if c.kind != "closure":
+                continue
+            rv = [n["v"] for n in thir.find(thir.root(c), "adt") if n["adt"].endswith("::RuntimeError")]
+            if rv:
+                kinds = {n.get("k") for n in thir.walk(thir.root(c)) if isinstance(n, dict) and n.get("k")}
+                wraps[c.def_.rsplit("::", 1)[-1]] = ("+".join(rv), sorted(kinds - PURE))
+        ok = sorted(v[0] for v in wraps.values()) == ["EventChannelTrySend", "FsWatcher"] and all(not v[1] for v in wraps.values())
+        ctx.require(ok, "R15.6", "process-event-errors-wrap",
+                    "process_event turns a watcher error / a full queue into one RuntimeError by constructing it from what it was given: no call, index or assignment in either conversion",
+                    pe.loc(pe.line), detail=str(wraps),
                     fail="process_event's error conversions do more than wrap the error (%s): a malformed watcher error can fail inside the callback instead of being reported" % wraps)
     except Skip:
         pass
